@@ -154,6 +154,14 @@ def run(ctx):
         case["ignore"] = True if _ % 2 else case["ignore"]
         ctx.hit("residue_stream")
         check(ctx, case, reqs, pend)
+    # one wide dimension alone (129 .. 255 and 257+ categories): the array cube's coordinates live in uint8 / uint16 there,
+    # and whatever a fill routine computes FROM the coordinates (pairs, offsets) must not wrap; rows sit at both ends
+    for ext in ((200,), (255,), (130,), (300,), (129, 2)) + (((40000,),) if ctx.tier == "thorough" else ()):
+        for ign in (False, True):
+            case = A.gen_case(ctx.rng, wide="u16" if max(ext) > 256 else "u8", wide_extents=ext)
+            case["ignore"] = ign
+            ctx.hit("wide_extents_fixed")
+            check(ctx, case, reqs, pend)
     from props import c03
     c03.tiny_weights(ctx, prefix="C04")     # a mean is missing when the valid weights sum to ZERO - not when they are merely small
     if ctx.oracle_only:
